@@ -150,6 +150,15 @@ pub struct Report {
 
 impl Report {
     pub fn new(property: &str, tier: &str) -> Report {
+        // stale replay files of earlier runs of this property and tier are removed
+        let dir = format!("{}/replays/{}", crate::drv::VERIF, property);
+        if let Ok(rd) = std::fs::read_dir(&dir) {
+            for e in rd.flatten() {
+                if e.file_name().to_string_lossy().starts_with(&format!("{}-", tier)) {
+                    let _ = std::fs::remove_file(e.path());
+                }
+            }
+        }
         Report {
             property: property.into(),
             tier: tier.into(),
